@@ -438,6 +438,65 @@ func floatLayers(tier string) []Layer {
 			},
 		})
 	}
+	// H5: SetFloat at the ends of big.Float's exponent range (log-domain oracle, 1e-9 relative)
+	{
+		fes := []int{math.MinInt32 + 1, math.MinInt32 + 2, math.MinInt32 + 30, math.MinInt32 + 53, math.MinInt32 + 54, math.MinInt32 + 70, math.MinInt32 + 300, -1 << 30, 1 << 30, math.MaxInt32 - 300, math.MaxInt32 - 1, math.MaxInt32}
+		layers = append(layers, Layer{
+			Name:   "H5-SetFloat-extreme-exponents",
+			Units:  len(fes),
+			Bounds: fmt.Sprintf("SetFloat(m×2^e) for binary exponents e in %v (ends of big.Float's range, incl. the e − MinPrec < MinInt32 branch) × mantissas {0.5, 0.75, 0.625, 53-bit pattern} × ± × receiver precision {0, 5, 34}: exact decimal exponent and value within 64 units in the last place (or 1e-9 relative), judged in the log domain (the exact expansion has ~10^9 digits)", fes),
+			Run: func(c *Ctx, u int) {
+				e := fes[u]
+				for _, mf := range []float64{0.5, 0.75, 0.625, 0.7853981633974483} {
+					for _, neg := range []bool{false, true} {
+						for _, p := range []uint32{0, 5, 34} {
+							if c.Skip() {
+								continue
+							}
+							x := new(big.Float).SetMantExp(big.NewFloat(mf), e)
+							if neg {
+								x.Neg(x)
+							}
+							if x.IsInf() {
+								continue
+							}
+							z := buildPre(preFresh, p, ToNearestEven)
+							pv, _ := protect(func() { z.SetFloat(x) })
+							key := fmt.Sprintf("SetFloat(%v×2^%d) neg=%v prec=%d", mf, e, neg, p)
+							if pv != nil {
+								c.Fail(key, fmt.Sprintf("panic: %v", pv))
+								continue
+							}
+							o := Observe(z)
+							c.NonTrivial()
+							if msg := Canonical(o); msg != "" {
+								c.Fail(key, "malformed: "+msg)
+								continue
+							}
+							if o.Form != fFinite || o.Neg != neg {
+								c.Fail(key, fmt.Sprintf("got %s, want a finite value of the same sign", o))
+								continue
+							}
+							// log10(x) = e·log10(2) + log10(m)
+							l2, _ := new(big.Rat).SetString("0.3010299956639811952137388947244930267681898814621085413104274611271081892744245")
+							t := new(big.Rat).Mul(l2, big.NewRat(int64(e), 1))
+							t.Add(t, new(big.Rat).SetFloat64(math.Log10(mf)))
+							// log10(stored) = exp + log10(0.D)
+							lead := o.Words[len(o.Words)-1]
+							ls := new(big.Rat).SetFloat64(math.Log10(float64(lead) / 1e19))
+							ls.Add(ls, big.NewRat(int64(o.Exp), 1))
+							d, _ := new(big.Rat).Sub(ls, t).Float64()
+							ep := float64(o.Prec)
+							tol := 0.4343*64*math.Pow(10, 1-ep) + 1e-9 // 64 units in the last place, in log10 terms
+							if math.Abs(d) > tol {
+								c.Fail(key, fmt.Sprintf("stored %s: log10(stored) − log10(x) = %g (a factor of %g)", o, d, math.Pow(10, d)))
+							}
+						}
+					}
+				}
+			},
+		})
+	}
 	// H3: Float64 / Float32 nearest
 	{
 		fexpsAll := []int{}
